@@ -73,8 +73,8 @@ CLAIMS["C05"] = proof(
 CLAIMS["C10"] = proof(
     "Mutex and Semaphore proved in full for histories: C10_mutex_no_trace — after any history (futures cancelled unpolled, pending, starved, notified-but-not-repolled or completed, in any order), in every reachable state with no guard alive "
     "and nothing pending (completed futures may stay alive) the state word is 0, lock_ops has no entry and try_lock succeeds; C10_sem_no_trace — the event has no entry and count + forgotten = initial + added, so every permit is in the "
-    "counter for try_acquire. RwLock: only the two words are proved clean (C10_rw_words_partial: state = 0, inner mutex word = 0, all try_* succeed, via C14_free_lock_succeeds); that no_readers / no_writer / the inner lock_ops hold no entry, "
-    "and that a cancelled upgrade releases its upgradable lock at the event level, is decided by the correspondence check and the C05/C06/C07 monitors evaluated after each cancellation. Schedule half not proved. " + CORR, NOTE)
+    "counter for try_acquire. RwLock: with nothing alive both words are 0 (C10_rw_words_partial; all try_* succeed, C14_free_lock_succeeds) and lock_ops / no_readers / no_writer hold no entry (C10_rw_events); after every cancellation "
+    "(incl. an announced writer or an upgrade: bit cleared, reader woken, inner mutex released) the C06 liveness invariant holds (C06_invariant). Schedule half not proved. " + CORR, NOTE)
 
 CLAIMS["C09"] = proof(
     "History half proved as a refinement: C09_refines — for every n < 2^64 and every history of fewer than 2^64-2 operations (waits created, polled with any wakers, spuriously, in any order, dropped anywhere, completed waits kept alive) "
@@ -95,5 +95,17 @@ CLAIMS["C08"] = proof(
     "each waiter woken through its latest waker completes at its next poll). C08_hand_over — the cell is Initializing only while some future is running its closure (after Err, panic or cancellation it is Uninitialized again, never stuck); "
     "Uninitialized at rest => no caller is still queued on active_initializers (the guard's notify(1) woke one; the notification is forwarded if that caller is cancelled; at its poll it runs its own closure). From the ownership invariant of both "
     "events (C08_invariant). 'Error/panic reported only to the caller whose closure produced it' is by construction of the model and compared with the implementation by the correspondence. Blocking forms / threads: not proved. " + CORR, NOTE)
+
+CLAIMS["C06"] = proof(
+    "History half proved at full strength for every history shorter than 2^61 operations over the full RwLock alphabet (five future kinds, borrowed and Arc, any wakers, spurious polls, every outcome of the inner mutex's starvation clock, "
+    "cancellation at every point incl. an announced writer and a notified-but-not-repolled waiter, the try_ family, three downgrades, guard drops): in every quiescent reachable state (a) no guard alive => nothing pending "
+    "(C06_idle_nothing_pending), (b) no write guard and no announced writer/upgrader => no read() pending (C06_readers_not_blocked), (c) no write/upgradable guard and no announced writer => nothing waits for the inner mutex: no "
+    "upgradable_read()/write() pending (C06_mutex_free_nothing_waits), (d) no guard alive => no write()/upgrade left announced (C06_writer_not_blocked). From the ownership invariant of the three events (lock_ops, no_readers, no_writer) "
+    "+ three availability conditions (RwLive.v, ~1300 lines; reuses the generic mutex lemmas lock_poll_live/lock_drop_live and MutexFrame). The code proved is the repaired one (F1, F2, F3 fix commits): on the pre-fix tree the proof obligations "
+    "for downgrade_to_upgradable (A2) and for the reader cascade fail. Schedule half (threads, blocking forms) not proved. " + CORR, NOTE)
+CLAIMS["C12"] = proof(
+    "History half proved: C12_writer_announced — quiescent, a polled write() or upgrade pending, no write/upgradable guard alive => a writer has announced itself (nH = 1, WRITER_BIT set); C12_bit_iff — WRITER_BIT is set exactly while a write "
+    "guard is alive or a writer/upgrader is announced; C12_try_read_fails — then try_read returns None; C12_reader_blocked — then every poll of every read() future returns Pending (whatever its cached state, notified or not). The bit is "
+    "cleared only by write_unlock, the downgrades of a write guard and the cancellation of the announced writer (site lists pinned by Tie_Raw/Tie_RwFutures); the announced writer completes when the last reader leaves (C06 (d)). Schedule half not proved. " + CORR, NOTE)
 
 NOT_APPLICABLE = []
